@@ -887,7 +887,33 @@ func distOf(sc *Scenario) []string {
 		d = append(d, "non-sd")
 	}
 
+	var claims interface{}
+	if json.Unmarshal([]byte(sc.Claims), &claims) == nil {
+		d = append(d, fmt.Sprintf("depth-%d", depthOf(claims)))
+	}
+
 	return d
+}
+
+func depthOf(v interface{}) int {
+	n := 0
+
+	switch t := v.(type) {
+	case map[string]interface{}:
+		for _, x := range t {
+			if k := 1 + depthOf(x); k > n {
+				n = k
+			}
+		}
+	case []interface{}:
+		for _, x := range t {
+			if k := 1 + depthOf(x); k > n {
+				n = k
+			}
+		}
+	}
+
+	return n
 }
 
 func (r *runner) run(sc *Scenario) {
@@ -1920,8 +1946,9 @@ func (r *runner) runVCSubject(g *gen, subject map[string]interface{}, v5 bool, a
 // ---------- generators ----------
 
 type gen struct {
-	r   *hx.Rng
-	tok int
+	r    *hx.Rng
+	tok  int
+	deep int // extra levels of nesting (recursive disclosures deeper than two, arrays of objects of arrays)
 }
 
 func (g *gen) leaf(allowNull bool) interface{} {
@@ -1978,7 +2005,7 @@ func (g *gen) value(depth, width int, allowNull bool) interface{} {
 		l := make([]interface{}, n)
 
 		for i := range l {
-			if g.r.Intn(4) == 0 {
+			if g.r.Intn(4) == 0 || (g.deep > 0 && g.r.Intn(2) == 0) {
 				l[i] = g.value(depth-1, 2, allowNull)
 			} else {
 				l[i] = g.leaf(false)
@@ -2031,7 +2058,7 @@ func (g *gen) scenario(nullsOK bool) *Scenario {
 	o := Opts{V5: r.Bool(), Alg: []int{256, 384, 512}[r.Intn(3)], Structured: r.Bool(), Decoys: r.Intn(4) == 0, Cnf: r.Intn(3) == 0}
 	allowNull := nullsOK && !o.V5 && r.Intn(3) == 0
 	allowEmpty := nullsOK && r.Intn(4) == 0
-	claims := g.object(2, 3, allowNull || allowEmpty)
+	claims := g.object(2+g.deep, 3, allowNull || allowEmpty)
 
 	if o.V5 && !allowNull {
 		claims = stripNulls(claims).(map[string]interface{})
@@ -2186,6 +2213,10 @@ func main() {
 	// 1. every subset (parent-closed = honest, the others = orphan attack) of up to 6 issued disclosures
 	for i := 0; i < nExh; i++ {
 		g := &gen{r: rng.Fork(uint64(i))}
+		if i%6 == 5 {
+			g.deep = 1
+		}
+
 		sc := g.scenario(i%5 == 4)
 		sc.AllSubsets = true
 		(&runner{tr: tr, kind: "exhaustive", coq: true}).run(sc)
@@ -2194,6 +2225,10 @@ func main() {
 	// 2. attacks and holder binding on a random selection
 	for i := 0; i < nAtt; i++ {
 		g := &gen{r: rng.Fork(uint64(100000 + i))}
+		if i%4 == 1 {
+			g.deep = 1 + i%3
+		}
+
 		sc := g.scenario(false)
 		sc.Opts.Decoys = sc.Opts.Decoys && !sc.Opts.V5
 		sc.Opts.Cnf = i%4 != 3
@@ -2270,6 +2305,10 @@ func main() {
 	// 3. larger random trees, random parent-closed selections (direct oracle; every 3rd through Coq)
 	for i := 0; i < nRand; i++ {
 		g := &gen{r: rng.Fork(uint64(200000 + i))}
+		if i%3 != 1 {
+			g.deep = 1 + i%2
+		}
+
 		sc := g.scenario(i%7 == 6)
 
 		var claims map[string]interface{}
